@@ -117,6 +117,13 @@ Theorem C01_cell_ops_change_that_row_only : forall (t : tstate) (o : top) (y : Z
 Proof. exact cell_ops_change_that_row_only. Qed.
 Print Assumptions C01_cell_ops_change_that_row_only.
 
+Theorem C01_set_row_changes_those_rows_only : forall (t : tstate) (y : Z) (rep : nat) (r : rowx) (t' : tstate),
+  WF t -> (1 <= rep)%nat -> rwf r -> t_step t (OSetRow y rep r) = Some t' ->
+  forall y', 0 <= y' ->
+  g_row y' (abs_t t') = if (ny y t <=? y') && (y' <? ny y t + Z.of_nat rep) then grow_of r else g_row y' (abs_t t).
+Proof. exact set_row_local. Qed.
+Print Assumptions C01_set_row_changes_those_rows_only.
+
 Theorem C01_insert_column_shifts_every_row : forall (t : tstate) (x : Z) (rep : nat) (st : Z) (t' : tstate),
   WF t -> (1 <= rep)%nat -> t_step t (OInsertColumn x rep st) = Some t' ->
   forall x' y', 0 <= x' ->
